@@ -182,10 +182,6 @@ inline std::string answer_mutable(const uvec& src, VF view_f) {
     return out + fmt(buf);
 }
 
-template <typename T> struct has_none : std::false_type {};
-template <typename... Ts> struct has_none<nmtools_tuple<Ts...>> : std::bool_constant<(nm::is_none_v<Ts> || ...)> {};
-template <typename T> constexpr bool has_none_v = has_none<T>::value;
-
 // ---- packed encoding: f(slices...) -----------------------------------------------------------------------------
 template <typename... S>
 inline std::string run_packed(const std::string& level, const uvec& src, const S&... s) {
@@ -201,19 +197,9 @@ inline std::string run_packed(const std::string& level, const uvec& src, const S
         auto pack = nmtools_tuple<S...>{s...};
         return answer_index(src, [&]() { return ix::apply_shape_slice(src, pack); }, [&](const uvec& d) { return ix::apply_slice(d, src, pack); });
     }
-    // view::slice(a, s...) packs its arguments with `nmtools_tuple{slices...}`; with exactly one argument that is itself a
-    // tuple, class template argument deduction copies the tuple instead of wrapping it: an all-int range is then read as
-    // 2/3 integer indices (observable, kept), a range with a None part does not compile (not callable: the request is
-    // answered through view::apply_slice with an explicitly typed 1-tuple instead).
-    constexpr bool callable = (sizeof...(S) > 1) || ((!has_none_v<S>) && ...);
-    if (level == "view") {
-        if constexpr (callable) return answer_view(src, [&](const auto& a) { return view::slice(a, s...); });
-        else return std::string("not-callable");
-    }
-    if (level == "mutable") {
-        if constexpr (callable) return answer_mutable(src, [&](auto& a) { return view::mutable_slice(a, s...); });
-        else return std::string("not-callable");
-    }
+    // view::slice(a, s...) / view::mutable_slice(a, s...): the variadic entry points (a single tuple argument included)
+    if (level == "view") return answer_view(src, [&](const auto& a) { return view::slice(a, s...); });
+    if (level == "mutable") return answer_mutable(src, [&](auto& a) { return view::mutable_slice(a, s...); });
     if (level == "viewapply") {
         auto pack = nmtools_tuple<S...>{s...};
         return answer_view(src, [&](const auto& a) { return view::apply_slice(a, pack); });
